@@ -82,6 +82,9 @@ func initProperties() {
 				use("DESCSTEP", "descriptor follows the path step", thriftGeneric),
 				use("WALKADVANCE", "descriptor advances per path step", thriftGeneric),
 				use("NEXTGUARD", "one element read per HasNext", thriftGeneric),
+				use("STRUCTNIL", "a field step on a non-struct descriptor is an error, not a nil dereference", thriftGeneric),
+				use("INDEXLOWER", "a negative element index is rejected", thriftGeneric),
+				use("NEXTERR", "no node is cut from the span of a failed iterator step", thriftGeneric),
 				use("KTETROLE", "key/element types not mixed up", thriftGeneric),
 				use("CLAUSEWIDTH", "fixed-width clauses use the label's width", anyOf(thriftGeneric, thriftPkg)),
 				use("ERRASSERT", "no unchecked error type assertion can panic", thriftGeneric),
@@ -121,11 +124,12 @@ func initProperties() {
 				use("ERRSWALLOW", "errors propagate", inPkgs("conv/t2j")),
 				use("LOOPPROGRESS", "loops consume", inPkgs("conv/t2j")),
 				use("COUNTCMP", "element loops stop at the header count", inPkgs("conv/t2j")),
+				use("NONFINITE", "NaN/Inf never reach the float formatter (which writes nothing for them)", inPkgs("conv/t2j", "thrift/annotation")),
 				use("NILLOOKUP", "lookups checked", inPkgs("conv/t2j")),
 				use("NATIVEQUOTE", "string escaper retry contract", nil),
 				use("POOLESCAPE", "result copied out of the pooled buffer", inPkgs("conv/t2j")),
 				use("CONSTAFFINITY", "number formatter head-room", nil),
-				use("JSONSTRRAW", "input strings are escaped", inPkgs("conv/t2j")),
+				use("JSONSTRRAW", "input strings are escaped", inPkgs("conv/t2j", "thrift/annotation")),
 				use("ERRMISMATCH", "the tested error is the assigned one", inPkgs("conv/t2j")),
 			)},
 		{ID: "C04", Title: "Thrift in-place edits change exactly the addressed element",
@@ -184,6 +188,8 @@ func initProperties() {
 				use("NILGUARDAGREE", "optional collaborators are nil-tested at every call site", nil),
 				use("CURSORREL", "the cursor only moves relatively (a callee's byte count is added, never assigned)", nil),
 				use("ERRASSERT", "no unchecked error type assertion can panic", nil),
+				use("WIREEXH", "group / invalid wire types are an error, not a silent no-op", nil),
+				use("NEXTERR", "no node is cut from the span of a failed iterator step", nil),
 				use("PACKEDKIND", "packed payloads are walked by the element kind", nil),
 				use("NATIVEQUOTE", "string escaper retry contract", nil),
 				use("NATIVERET", "native status / buffer window", nil),
@@ -207,10 +213,15 @@ func initProperties() {
 				use("KTETROLE", "key/element types not mixed up", protoGeneric),
 				use("MSGNARROW", "repeated/map walkers cannot leave the embedded message", protoGeneric),
 				use("REWIND", "cursor re-positioned before SkipAllElements", protoGeneric),
+				use("INDEXLOWER", "a negative element index is rejected", protoGeneric),
 				use("MSGNARROW", "repeated/map walkers cannot leave the embedded message", anyOf(protoGeneric, protoBinary)),
 				use("UNUSEDBOUND", "message-length bounds are used by the scanners", anyOf(protoGeneric, protoBinary)),
 				use("UNSIGNEDWIDEN", "unsigned 32-bit kinds are not sign-extended", nil),
 				use("MSGNARROW", "repeated/map walkers cannot leave the embedded message", protoBinary),
+				use("ELEMTAG", "unpacked list elements carry the element's wire type", protoBinary),
+				use("BOOLNONZERO", "a bool is true for every non-zero varint", nil),
+				use("WIREEXH", "group / invalid wire types are an error, not a silent no-op", nil),
+				use("NEXTERR", "no node is cut from the span of a failed iterator step", nil),
 				use("PACKEDKIND", "packed payloads are walked by the element kind", nil),
 				use("LENZERO", "empty length-delimited payloads are accepted", anyOf(protoGeneric, protoBinary)),
 				use("ERRASSERT", "no unchecked error type assertion can panic", protoGeneric),
@@ -224,6 +235,7 @@ func initProperties() {
 				use("MAPKEYQUOTE", "map keys quoted", nil),
 				use("UNSIGNEDWIDEN", "unsigned 32-bit kinds are not sign-extended", inPkgs("conv/p2j", "proto/binary")),
 				use("MSGNARROW", "repeated/map walkers cannot leave the embedded message", inPkgs("conv/p2j")),
+				use("NONFINITE", "NaN/Inf never reach the float formatter (which writes nothing for them)", inPkgs("conv/p2j")),
 				use("SIGNCONV", "unsigned exact", nil),
 				use("KINDEXH", "all kinds", inPkgs("conv/p2j")),
 				use("LOOPPROGRESS", "loops consume", inPkgs("conv/p2j")),
@@ -257,6 +269,7 @@ func initProperties() {
 				use("POOLESCAPE", "result copied out of the pooled buffer", inPkgs("conv/j2p")),
 				use("POOLFIELD", "the protocol object behind the returned bytes is not recycled", inPkgs("conv/j2p")),
 				use("SENTINELPOS", "the `no open length` sentinel never reaches FinishSpeculativeLength", inPkgs("conv/j2p")),
+				use("NILABLEFIELD", "a JSON scalar without a pending descriptor is an error, not a nil dereference", inPkgs("conv/j2p")),
 				use("POOLRESET", "pooled visitor state fully reset", inPkgs("conv/j2p")),
 			)},
 		{ID: "C10", Title: "Protobuf edits and DOM marshalling keep the message well-formed and exact",
@@ -438,6 +451,9 @@ func initProperties() {
 				use("RWPAIR", "reader/writer symmetric", nil),
 				use("UNSIGNEDWIDEN", "unsigned 32-bit kinds are not sign-extended", nil),
 				use("MSGNARROW", "repeated/map walkers cannot leave the embedded message", protoBinary),
+				use("ELEMTAG", "unpacked list elements carry the element's wire type", protoBinary),
+				use("BOOLNONZERO", "a bool is true for every non-zero varint", nil),
+				use("WIREEXH", "group / invalid wire types are an error, not a silent no-op", nil),
 				use("GROWCOPY", "speculative length re-allocation keeps the payload", nil),
 				use("VARINTNARROW", "varint lengths bounded before narrowing", nil),
 				use("POOLRESET", "recycled protocol objects fully reset", protoBinary),
